@@ -75,6 +75,21 @@ def observe(cmd, args):
             m = Marker(t)
             return [str(m), m.evaluate(e), str(m), m.evaluate(e), hash(m) == hash(Marker(t))]
         return guarded(f, args[0], env)
+    if cmd == "det.marker.multi":   # one Marker object evaluated under several environments in sequence; each answer must equal a fresh object's
+        envs = json.loads(args[1])
+        try: m = Marker(args[0])
+        except InvalidMarker: return "E"
+        s0, h0 = str(m), hash(m)
+        out = []
+        for e in envs + envs[::-1]:
+            try: r = m.evaluate(dict(e))
+            except UndefinedComparison: r = "UC"
+            try: fresh = Marker(args[0]).evaluate(dict(e))
+            except UndefinedComparison: fresh = "UC"
+            if r != fresh: return "HISTORY-DEPENDENT evaluate: %r on the shared object, %r on a fresh one" % (r, fresh)
+            out.append(r)
+        if str(m) != s0 or hash(m) != h0: return "OBJECT-CHANGED"
+        return canon(out)
     if cmd == "det.tags":
         def f(t): return [sorted(str(x) for x in parse_tag(t)), len(parse_tag(t))]
         return guarded(f, args[0])
